@@ -94,9 +94,14 @@ def run(ctx):
                       "fen 8/8/8/4k3/8/8/4K3/8 w - - 0 1", "fen 8/8/8/4k3/8/8/4K3/7n b - - 0 1"]
     deep_pv_lines = []
     deep_ns = [255, 254, 128] if ctx["tier"] == "quick" else [255, 254, 253, 200, 128, 64]
+    # pawn endings to depth 10 / 12: the score JUMPS between deep iterations when a promotion enters the horizon (seeded change r9C14:
+    # aspiration windows from iteration 7 on; an iteration that fails outside its window is skipped instead of redone: a gap in the depths)
+    pawn_runs = [("fen " + f, n) for f in ("8/8/8/8/4P3/8/k7/4K3 w - - 0 1", "7k/8/8/8/8/P7/8/7K w - - 0 1", "8/5k2/8/8/8/8/1P6/1K6 w - - 0 1",
+                                             "k7/7p/8/8/8/8/8/K7 b - - 0 1", "8/2k5/8/8/8/8/5P1P/6K1 w - - 0 1", "6k1/8/8/8/8/8/P6p/K7 w - - 0 1")
+                 for n in ((10, 12) if ctx["tier"] == "quick" else (8, 10, 12, 14))]
     deep_runs = 0
-    for pos in deep_positions:
-        for n in deep_ns:
+    for pos, n in [(p_, n_) for p_ in deep_positions for n_ in deep_ns] + pawn_runs:
+        if True:
             eng = uciproc.Engine()
             try:
                 eng.send("position " + pos)
